@@ -1,2 +1,173 @@
-/-! Stub driver root for the Coord hand model; replaced by the model's line-protocol driver. -/
-def main : IO Unit := IO.println "stub"
+import GeodeVerif.Model.Coord
+import GeodeVerif.Num.Wire
+/-!
+# Line-protocol driver for the coordinate-object hand model (`crddrv`)
+
+Runs `Crd.convF` — the generic model of `Model/Coord.lean` instantiated with the GENERATED
+`GenF.Convert.*` functions and the `Float` angle model. One request per line, one response per line;
+numbers travel as the 16 hex digits of their binary64 pattern; segments are separated by ` | `.
+
+Objects (the `vars()` of the Python object, in field order)
+* `CART <x> <y> <z> <n|none>`
+* `GEO <latlon> <latlon> <ell|none> <orth|none>` with `<latlon>` = `FLT <hex>` | `DEC <hex>` |
+  `HP <hex>` | `GON <hex>` | `DMS <0|1> <deg> <min> <hex>` | `DDM <0|1> <deg> <hex>`
+* `TM <zone> <east> <north> <ell|none> <orth|none> <0|1 hemi_north> <projection>`; the projection is
+  `utm`/`isg` (or `-` = argument omitted) in requests and the `pyid` (1 = utm, 2 = isg) in responses
+
+Requests
+* `chain <object> | <op> | <op> …` — construct the object (through the class constructor), then apply
+  the calls left to right. Ops: `cart <e>`, `geo <e> <nt>`, `tm <e> <p>`, `notation <nt>`,
+  `round <n|none>`; `<e>` = `-` (omitted) | `grs80` | `wgs84` | `ans` | `intl24`; `<p>` = `-` | `utm` |
+  `isg`; `<nt>` = `-` | `float` | `DEC` | `HP` | `GON` | `DMS` | `DDM`.
+  Response: the constructed object and every intermediate object, ` | `-separated; the first
+  exception ends the list as `ERR:<kind>`.
+* `eq <object> | <object>` — `a == b`: `BOOL 0|1` or `ERR:<kind>`.
+-/
+open Crd Ang Py Wire
+open GenF.Constants (Ellipsoid Projection)
+
+abbrev C := Coord Float Projection
+
+def wOpt : Option Float → String
+  | none => "none"
+  | some x => PyF.hex x
+
+def wObj : AngleObj Float → String
+  | .decA x => "DEC " ++ PyF.hex x
+  | .hpA x => "HP " ++ PyF.hex x
+  | .gonA x => "GON " ++ PyF.hex x
+  | .dmsA s => s!"DMS {if s.positive then 1 else 0} {s.degree} {s.minute} {PyF.hex s.second}"
+  | .ddmA s => s!"DDM {if s.positive then 1 else 0} {s.degree} {PyF.hex s.minute}"
+
+def wLatLon : LatLon Float → String
+  | .flt x => "FLT " ++ PyF.hex x
+  | .obj o => wObj o
+
+def wCoord : C → String
+  | .cart c => s!"CART {PyF.hex c.xaxis} {PyF.hex c.yaxis} {PyF.hex c.zaxis} {wOpt c.nval}"
+  | .geo g => s!"GEO {wLatLon g.lat} {wLatLon g.lon} {wOpt g.ell_ht} {wOpt g.orth_ht}"
+  | .tm t => s!"TM {t.zone} {PyF.hex t.east} {PyF.hex t.north} {wOpt t.ell_ht} {wOpt t.orth_ht} " ++
+      s!"{if t.hemi_north then 1 else 0} {t.projection.pyid}"
+
+def pLatLon : List String → Option (LatLon Float × List String)
+  | "FLT" :: x :: t => some (.flt (pNum x), t)
+  | "DEC" :: x :: t => some (.obj (.decA (pNum x)), t)
+  | "HP" :: x :: t => some (.obj (.hpA (pNum x)), t)
+  | "GON" :: x :: t => some (.obj (.gonA (pNum x)), t)
+  | "DMS" :: p :: d :: m :: s :: t =>
+    some (.obj (.dmsA { positive := p == "1", degree := pNat d, minute := pNat m, second := pNum s }), t)
+  | "DDM" :: p :: d :: m :: t =>
+    some (.obj (.ddmA { positive := p == "1", degree := pNat d, minute := pNum m }), t)
+  | _ => none
+
+def pEll : String → Option (Option Ellipsoid)
+  | "-" => some none
+  | "grs80" => some (some GenF.Constants.grs80)
+  | "wgs84" => some (some GenF.Constants.wgs84)
+  | "ans" => some (some GenF.Constants.ans)
+  | "intl24" => some (some GenF.Constants.intl24)
+  | _ => none
+
+def pPrj : String → Option (Option Projection)
+  | "-" => some none
+  | "utm" => some (some GenF.Constants.utm)
+  | "isg" => some (some GenF.Constants.isg)
+  | _ => none
+
+def pNt : String → Option (Option Notation)
+  | "-" => some none
+  | "float" => some (some .flt)
+  | "DEC" => some (some (.cls .DEC))
+  | "HP" => some (some (.cls .HP))
+  | "GON" => some (some (.cls .GON))
+  | "DMS" => some (some (.cls .DMS))
+  | "DDM" => some (some (.cls .DDM))
+  | _ => none
+
+/-- construct an object through the class constructor -/
+def pCoord : List String → Option (Except PyErr C)
+  | ["CART", x, y, z, n] => some (.ok (.cart (CoordCart.new (pNum x) (pNum y) (pNum z) (pOpt n))))
+  | "GEO" :: rest => do
+    let (lat, r) ← pLatLon rest
+    let (lon, r) ← pLatLon r
+    match r with
+    | [ell, orth] => some ((CoordGeo.new lat lon (pOpt ell) (pOpt orth)).map .geo)
+    | _ => none
+  | ["TM", zone, east, north, ell, orth, hemi, prj] => do
+    let p ← pPrj prj
+    some (.ok (.tm (CoordTM.new convF (zone.toInt?.getD 0) (pNum east) (pNum north) (pOpt ell) (pOpt orth)
+      (hemi == "1") p)))
+  | _ => none
+
+/-- driver-level call: a conversion or `round` -/
+inductive Call where
+  | op (o : Op Ellipsoid Projection)
+  | round (n : Option Nat)
+
+def pCall : List String → Option Call
+  | ["cart", e] => do let e ← pEll e; some (.op (.cart e))
+  | ["geo", e, nt] => do let e ← pEll e; let nt ← pNt nt; some (.op (.geo e nt))
+  | ["tm", e, p] => do let e ← pEll e; let p ← pPrj p; some (.op (.tm e p))
+  | ["notation", nt] => do let nt ← pNt nt; (nt.map fun n => .op (.nota n))
+  | ["round", n] => some (.round (if n == "none" then none else some (pNat n)))
+  | _ => none
+
+def applyCall (c : C) : Call → Except PyErr C
+  | .op o => c.apply convF o
+  | .round n => c.round n
+
+/-- split a token list at the `|` tokens -/
+def segments (ts : List String) : List (List String) :=
+  let rec go (ts : List String) (cur : List String) (acc : List (List String)) : List (List String) :=
+    match ts with
+    | [] => (cur.reverse :: acc).reverse
+    | "|" :: t => go t [] (cur.reverse :: acc)
+    | x :: t => go t (x :: cur) acc
+  go ts [] []
+
+def doChain (ts : List String) : String :=
+  match segments ts with
+  | [] => "BAD chain"
+  | o :: calls =>
+    match pCoord o, calls.mapM pCall with
+    | some (.error e), some _ => "ERR:" ++ e.name
+    | some (.ok c), some cs =>
+      let rec go (cs : List Call) (c : C) (acc : List String) : List String :=
+        match cs with
+        | [] => acc.reverse
+        | k :: t =>
+          match applyCall c k with
+          | .ok c' => go t c' (wCoord c' :: acc)
+          | .error e => (("ERR:" ++ e.name) :: acc).reverse
+      " | ".intercalate (go cs c [wCoord c])
+    | _, _ => "BAD chain"
+
+def doEq (ts : List String) : String :=
+  match segments ts with
+  | [a, b] =>
+    match pCoord a, pCoord b with
+    | some (.ok x), some (.ok y) =>
+      (match Coord.eq (fun (p q : Projection) => p.pyid == q.pyid) x y with
+       | .ok r => if r then "BOOL 1" else "BOOL 0"
+       | .error e => "ERR:" ++ e.name)
+    | _, _ => "BAD eq"
+  | _ => "BAD eq"
+
+def handle (toks : List String) : String :=
+  match toks with
+  | [] => "empty"
+  | "chain" :: rest => doChain rest
+  | "eq" :: rest => doEq rest
+  | _ => "BAD request"
+
+partial def loop (h : IO.FS.Stream) (out : IO.FS.Stream) : IO Unit := do
+  let line ← h.getLine
+  if line.isEmpty then return ()
+  let toks := (line.trimAscii.toString.splitOn " ").filter (· ≠ "")
+  out.putStrLn (handle toks)
+  loop h out
+
+def main : IO Unit := do
+  let out ← IO.getStdout
+  loop (← IO.getStdin) out
+  out.flush
